@@ -80,6 +80,42 @@ def checkDigits (digits optional : Nat) (valid : Str → Bool) (value : Str) : E
 /-- `value.split(".", 1)[0]` -/
 def beforeDot (s : Str) : Str := s.takeWhile (· ≠ '.')
 
+/-! ### date / time objects (what a program assigns instead of text) -/
+
+/-- a `datetime.datetime` (a `date` has the time parts 0, a `time` the date parts unused); microseconds are dropped
+    by the formats the fields use -/
+structure PyDateTime where
+  y : Nat
+  m : Nat
+  d : Nat
+  hh : Nat
+  mi : Nat
+  ss : Nat
+  deriving DecidableEq, Repr
+
+/-- what Python's constructors accept: 1 ≤ year ≤ 9999, a day of the month, a time of day -/
+def PyDateTime.validDate (t : PyDateTime) : Bool :=
+  1 ≤ t.y && t.y ≤ 9999 && 1 ≤ t.m && t.m ≤ 12 && 1 ≤ t.d && t.d ≤ daysInMonth t.y t.m
+def PyDateTime.validTime (t : PyDateTime) : Bool := t.hh < 24 && t.mi < 60 && t.ss < 60
+
+def dig (n : Nat) : Char := Char.ofNat (48 + n % 10)
+def fmt2 (n : Nat) : Str := [dig (n / 10), dig n]
+def fmt4 (n : Nat) : Str := [dig (n / 1000), dig (n / 100), dig (n / 10), dig n]
+/-- `value.strftime("%Y%m%d").zfill(8)` (glibc prints years below 1000 without padding; zfill restores it) -/
+def fmtDate (t : PyDateTime) : Str := fmt4 t.y ++ fmt2 t.m ++ fmt2 t.d
+/-- `value.strftime("%H%M%S")` -/
+def fmtTime (t : PyDateTime) : Str := fmt2 t.hh ++ fmt2 t.mi ++ fmt2 t.ss
+
+/-- `_set_value` of a date / time / timestamp field for a datetime object: the formatted digits are stored as they
+    are (no check: the object is a valid instant by construction); every other kind refuses such an object or stores
+    its `str()`, which is outside this model -/
+def setScalarObj (k : Kind) (t : PyDateTime) : Except Err Str :=
+  match k with
+  | .date => .ok (fmtDate t)
+  | .time => .ok (fmtTime t)
+  | .datetime => .ok (fmtDate t ++ fmtTime t)
+  | _ => .error .unmodelled
+
 /-- json.dumps of a str with ensure_ascii (code points < 0x10000 as one \uXXXX, above as a surrogate pair) -/
 def hex4 (n : Nat) : Str :=
   let h := fun (d : Nat) => if d < 10 then Char.ofNat (48 + d) else Char.ofNat (87 + d)
